@@ -110,6 +110,30 @@ pub struct CompCase {
     pub seed: u64,
 }
 
+/// C06 at the CKKS layer
+#[derive(Clone, Debug, Serialize, Deserialize)]
+pub struct EncCase {
+    pub be: Be,
+    pub pset: u8,
+    pub limbs: u8,
+    pub seed: u64,
+}
+
+pub fn test_enc_seeds(c: &EncCase) -> Verdict {
+    match c.be {
+        Be::FftRef => fft_ref::run_enc_seeds(c),
+        Be::FftAvx => fft_avx::run_enc_seeds(c),
+        Be::NttRef => ntt_ref::run_enc_seeds(c),
+        Be::NttAvx => ntt_avx::run_enc_seeds(c),
+    }
+}
+
+fn enc_strategy() -> BoxedStrategy<EncCase> {
+    (prop_oneof![Just(Be::FftRef), Just(Be::FftAvx), Just(Be::NttRef), Just(Be::NttAvx)], 0u8..2, 2u8..=8, any::<u64>()).prop_map(|(be, pset, limbs, seed)| EncCase { be, pset, limbs, seed }).boxed()
+}
+
+pub const RULE_C06: &str = "CKKS layer: cases = (backend, parameter set, ciphertext of 2..8 limbs, seed): ckks_encrypt_sk(.., source_xa, source_xe, ..) of a generated plaintext run with (mask seed, error seed) = (A, E), (A, E) again, (A, E') and (A', E). Oracle: the two (A, E) runs are identical; the mask columns of (A, E) and (A, E') are identical and their bodies differ; the mask columns of (A, E) and (A', E) differ. non-trivial = every executed case.";
+
 #[derive(Clone, Debug, Serialize, Deserialize)]
 pub struct Case {
     pub be: Be,
@@ -399,6 +423,9 @@ fn main() {
         if prop == "C10" {
             std::process::exit(ctx.replay_case::<Case, _>(&sub, &case, test_xb));
         }
+        if prop == "C06" {
+            std::process::exit(ctx.replay_case::<EncCase, _>(&sub, &case, test_enc_seeds));
+        }
         if prop == "C17" && sub.starts_with("asan_ckks_composite") {
             let _ = pzv_common::driver::arm_sanitizer_callback(&ctx.property, &ctx.root);
             let f: fn(&CompCase) -> Verdict = if sub == "asan_ckks_composite_exact_scratch" { test_c12_composite } else { test_composite };
@@ -417,6 +444,13 @@ fn main() {
         let t = ctx.tier;
         ctx.run_sub("ckks_cross_backend", t.pick(6_000, 150_000), 64, strategy, test_xb);
         let code = ctx.finish(RULE_C10, &["the evaluation keys are generated per backend from the same seeds: a difference in key generation shows up as a difference of the results"], &[("four_backends_identical", 1000), ("mul_into", 50), ("rotate", 50)]);
+        std::process::exit(code);
+    }
+    if prop == "C06" {
+        let ctx = DCtx::from_args(&prop, &args[1..]);
+        let t = ctx.tier;
+        ctx.run_sub("ckks_encrypt_mask_noise_seeds", t.pick(2_048, 40_000), 64, enc_strategy, test_enc_seeds);
+        let code = ctx.finish(RULE_C06, &["the error statistics of the CKKS wrapper are those of glwe_encrypt_zero_sk, judged by the core-level part of C06"], &[]);
         std::process::exit(code);
     }
     if prop == "C17" {
